@@ -99,6 +99,29 @@ theorem Inv.setB {k : Nat} {s : PState} (h : Inv T E k s) (B : List Nat) : Inv T
 theorem Inv.setC {k : Nat} {s : PState} (h : Inv T E k s) (C : List Nat) : Inv T E k (setC s C) :=
   ⟨h.toks, h.eof, h.st⟩
 
+/-- The state after `parseTextStatement` recorded its text. -/
+def addTextSt (s : PState) (t : Text) : PState := { s with textStatements := s.textStatements ++ [t] }
+/-- The state after `parseConstant` recorded a constant. -/
+def addConst (s : PState) (c v : String) : PState := { s with constants := (c, v) :: s.constants }
+
+theorem addTextSt_toks (s : PState) (t : Text) : (addTextSt s t).toks = s.toks := id rfl
+theorem addTextSt_eof (s : PState) (t : Text) : (addTextSt s t).eof = s.eof := id rfl
+theorem addTextSt_constants (s : PState) (t : Text) : (addTextSt s t).constants = s.constants := id rfl
+theorem addTextSt_nextCmdId (s : PState) (t : Text) : (addTextSt s t).nextCmdId = s.nextCmdId := id rfl
+theorem addConst_toks (s : PState) (c v : String) : (addConst s c v).toks = s.toks := id rfl
+theorem addConst_eof (s : PState) (c v : String) : (addConst s c v).eof = s.eof := id rfl
+theorem addConst_nextCmdId (s : PState) (c v : String) : (addConst s c v).nextCmdId = s.nextCmdId := id rfl
+
+theorem Inv.addTextSt {k : Nat} {s : PState} (h : Inv T E k s) {t : Text} (ht : Tin T E t.tok) :
+    Inv T E k (addTextSt s t) := by
+  refine ⟨h.toks, h.eof, h.st.1, ?_, h.st.2.2⟩
+  intro x hx
+  rcases List.mem_append.1 hx with h1 | h1
+  · exact h.st.2.1 x h1
+  · rw [List.mem_singleton] at h1; subst h1; exact ht
+theorem Inv.addConst {k : Nat} {s : PState} (h : Inv T E k s) (c v : String) : Inv T E k (addConst s c v) :=
+  ⟨h.toks, h.eof, h.st⟩
+
 /-- Postcondition: the window moved forward, the invariant holds, the result satisfies `R`. -/
 def Post {α} (k : Nat) (R : α → Prop) (a : α) (s' : PState) : Prop :=
   ∃ k', k ≤ k' ∧ Inv T E k' s' ∧ R a
@@ -269,6 +292,23 @@ theorem tri_popContinue (s : PState) (Q : Unit → PState → Prop) :
     tri El popContinue s Q ↔ Q () (setC s s.continueStack.tail) := by
   unfold popContinue; rw [tri_modify]; rfl
 
+theorem tri_peekTokenIsAutoVar (env : Env) (s : PState) (Q : Bool → PState → Prop) :
+    tri El (peekTokenIsAutoVar env) s Q ↔
+      Q (if (s.toks.getD 1 s.eof).type != .IDENT then false
+         else (env.autoVars.lookup (s.toks.getD 1 s.eof).lit).isSome) s := by
+  unfold peekTokenIsAutoVar
+  simp only [tri_bind, tri_peek, tri_pure]
+  split <;> simp only [tri_pure]
+
+theorem tri_addTextSt (t : Text) (s : PState) (Q : PUnit → PState → Prop) :
+    tri El (modify fun s => { s with textStatements := s.textStatements ++ [t] }) s Q ↔
+      Q ⟨⟩ (addTextSt s t) := by
+  rw [tri_modify]; rfl
+theorem tri_addConst (c v : String) (s : PState) (Q : PUnit → PState → Prop) :
+    tri El (modify fun s => { s with constants := (c, v) :: s.constants }) s Q ↔
+      Q ⟨⟩ (addConst s c v) := by
+  rw [tri_modify]; rfl
+
 theorem tri_bumpCmdId (s : PState) (Q : PUnit → PState → Prop) :
     tri El (modify fun s => { s with nextCmdId := s.nextCmdId + 1 }) s Q ↔
       Q ⟨⟩ (upd s s.toks (s.nextCmdId + 1)) := by
@@ -290,7 +330,8 @@ macro_rules
   | `(tactic| tsimp) => `(tactic| simp only [tri_bind, tri_pure, tri_fail, tri_ite, tri_get, tri_set, tri_cur, tri_peek, tri_peek2, tri_peek3,
       tri_peek4, tri_nextToken, tri_curIs, tri_peekIs, tri_peek2Is, tri_expectPeek, tri_expectPeekErr,
       tri_tryReplace, tri_newSid, tri_pushBreak, tri_popBreak, tri_pushContinue, tri_popContinue,
-      tri_bumpCmdId, upd_toks, upd_nextCmdId, upd_eof, upd_constants, upd_breakStack, upd_continueStack,
+      tri_bumpCmdId, tri_peekTokenIsAutoVar, tri_addTextSt, tri_addConst, addTextSt_toks, addTextSt_eof,
+      addTextSt_constants, addTextSt_nextCmdId, addConst_toks, addConst_eof, addConst_nextCmdId, upd_toks, upd_nextCmdId, upd_eof, upd_constants, upd_breakStack, upd_continueStack,
       upd_nextSid, upd_upd, setSid_toks, setSid_eof, setSid_constants, setSid_nextCmdId,
       setSid_breakStack, setSid_continueStack, setSid_nextSid, setB_toks, setB_eof, setB_constants,
       setB_nextCmdId, setB_breakStack, setB_continueStack, setB_nextSid, setC_toks, setC_eof,
@@ -302,7 +343,8 @@ macro_rules
   | `(tactic| tsimp [$ts,*]) => `(tactic| simp only [tri_bind, tri_pure, tri_fail, tri_ite, tri_get, tri_set, tri_cur, tri_peek, tri_peek2, tri_peek3,
       tri_peek4, tri_nextToken, tri_curIs, tri_peekIs, tri_peek2Is, tri_expectPeek, tri_expectPeekErr,
       tri_tryReplace, tri_newSid, tri_pushBreak, tri_popBreak, tri_pushContinue, tri_popContinue,
-      tri_bumpCmdId, upd_toks, upd_nextCmdId, upd_eof, upd_constants, upd_breakStack, upd_continueStack,
+      tri_bumpCmdId, tri_peekTokenIsAutoVar, tri_addTextSt, tri_addConst, addTextSt_toks, addTextSt_eof,
+      addTextSt_constants, addTextSt_nextCmdId, addConst_toks, addConst_eof, addConst_nextCmdId, upd_toks, upd_nextCmdId, upd_eof, upd_constants, upd_breakStack, upd_continueStack,
       upd_nextSid, upd_upd, setSid_toks, setSid_eof, setSid_constants, setSid_nextCmdId,
       setSid_breakStack, setSid_continueStack, setSid_nextSid, setB_toks, setB_eof, setB_constants,
       setB_nextCmdId, setB_breakStack, setB_continueStack, setB_nextSid, setC_toks, setC_eof,
@@ -314,7 +356,8 @@ macro_rules
   | `(tactic| tsimpS) => `(tactic| simp only [tri_bind, tri_pure, tri_fail, tri_ite, tri_get, tri_set, tri_cur, tri_peek, tri_peek2, tri_peek3,
       tri_peek4, tri_nextToken, tri_curIs, tri_peekIs, tri_peek2Is, tri_expectPeek, tri_expectPeekErr,
       tri_tryReplace, tri_newSid, tri_pushBreak, tri_popBreak, tri_pushContinue, tri_popContinue,
-      tri_bumpCmdId, upd_toks, upd_nextCmdId, upd_eof, upd_constants, upd_breakStack, upd_continueStack,
+      tri_bumpCmdId, tri_peekTokenIsAutoVar, tri_addTextSt, tri_addConst, addTextSt_toks, addTextSt_eof,
+      addTextSt_constants, addTextSt_nextCmdId, addConst_toks, addConst_eof, addConst_nextCmdId, upd_toks, upd_nextCmdId, upd_eof, upd_constants, upd_breakStack, upd_continueStack,
       upd_nextSid, upd_upd, setSid_toks, setSid_eof, setSid_constants, setSid_nextCmdId,
       setSid_breakStack, setSid_continueStack, setSid_nextSid, setB_toks, setB_eof, setB_constants,
       setB_nextCmdId, setB_breakStack, setB_continueStack, setB_nextSid, setC_toks, setC_eof,
@@ -327,7 +370,7 @@ macro_rules
 /-- Start: symbolic execution from a state with invariant `hi`; the window equations stay in the context for
 later `tsimpS` calls. -/
 macro "tstart " hi:ident : tactic =>
-  `(tactic| (have hs := ($hi).toks; have he := ($hi).eof; tsimp [hs, he]))
+  `(tactic| (have hs := ($hi).toks; have he := ($hi).eof; have hst := ($hi).st; tsimp [hs, he]))
 
 /-- Re-establish the invariant for a state built from one that satisfies it. -/
 macro "invtac" : tactic =>
@@ -352,14 +395,17 @@ macro_rules
       | (exact impok_empty _ _) | (apply impok_add) | (apply impok_addText) | (apply impok_addMovement)
       | (exact el_range _ _ _ _ _ (by omega))
       | (apply Inv.upd) | (apply Inv.setSid) | (apply Inv.setB) | (apply Inv.setC)
+      | (apply Inv.addTextSt) | (apply Inv.addConst)
+      | (refine Inv.mk rfl (by first | rfl | assumption) (by assumption))
       | (show (_ : Nat) ≤ _; omega)
       | ((with_reducible (intro a s' hp)); obtain ⟨k', hk, hinv, hr⟩ := hp; have hs := hinv.toks; have he := hinv.eof;
+          have hst := hinv.st;
           try tsimp [hs, he])
       | (with_reducible intro _)
       | tsimpS
-      | (apply tri_call; first $[| apply $ts]*)
+      | (apply tri_call; first $[| (with_reducible (apply $ts))]*)
       | (apply el_tin_of)
-      | (first $[| apply $ts]*)
+      | (first $[| (with_reducible (apply $ts))]*)
       | split))
 
 end Pory.Parser
